@@ -64,8 +64,8 @@ Module Names.
 Import Coq.Strings.String.
 (* OBLIGATION *)
 Theorem translated_functions :
-  B.translated = ["Clear"; "Empty"; "Get"; "GetKey"; "Keys"; "New"; "NewWith"; "Put"; "Remove"; "Size"; "Values"]%string
-  /\ B.skipped = ["String"]%string /\ B.not_selected = [].
+  B.translated = ["All"; "Any"; "Clear"; "Empty"; "Find"; "Get"; "GetKey"; "Keys"; "Map_Map"; "New"; "NewWith"; "Put"; "Remove"; "Select"; "Size"; "Values"]%string
+  /\ B.skipped = ["Each"; "String"]%string /\ B.not_selected = [].
 Proof. repeat split. Qed.
 Print Assumptions translated_functions.
 End Names.
